@@ -163,14 +163,15 @@ def r4_skip_table(ctx):
             for e in body:
                 if e[0] == "switch" and e[2][0] == "call" and name_is(e[2][2], "eq", "ne"):
                     same = name_is(e[2][2], "eq") == (e[3] != 0)
-            d0 = decision_on(body, lambda t: t[0] == "bin" and t[1] == "Eq" and t[2][0] == "phi" and t[2][3] == "depth")
+            d0 = decision_on(body, lambda t: t[0] == "bin" and t[1] == "Eq" and t[2][0] == "phi" and strip_wrappers(t[3])[0] == "c" and strip_wrappers(t[3])[2] == 0)
             skipped = len([c for c in calls(body) if name_is(c[2], "skip_event")])
             r = ret_of(p)
             if r is not None and ((r[0] == "call" and name_is(r[2], "from_residual")) or is_error_exit(p)):
                 continue
             last = p[-1]
             if last[0] == "loop":
-                dv = last[2].get("depth")
+                cc = carried_counter(last)
+                dv = cc[1] if cc else last[2].get("depth")
                 out = "continue" if dv is None or dv[0] == "phi" else ("depth+1" if dv[1] == "Add" else "depth-1" if dv[1] == "Sub" else "?")
             elif last[0] == "ret":
                 out = "stop"
@@ -208,9 +209,10 @@ def r6_read_to_end(ctx):
             for e in p:
                 if e[0] == "switch" and e[2][0] == "call" and name_is(e[2][2], "eq", "ne"):
                     same = name_is(e[2][2], "eq") == (e[3] != 0)
-            d0 = decision_on(p, lambda t: t[0] == "bin" and t[1] == "Eq" and strip_wrappers(t[2])[0] == "phi" and strip_wrappers(t[2])[3] == "depth" and strip_wrappers(t[3]) == ("c", strip_wrappers(t[3])[1], 0))
+            d0 = decision_on(p, lambda t: t[0] == "bin" and t[1] == "Eq" and strip_wrappers(t[2])[0] == "phi" and strip_wrappers(t[3]) == ("c", strip_wrappers(t[3])[1], 0))
             if ends(p) == "loop":
-                dv = p[-1][2].get("depth")
+                cc = carried_counter(p[-1])
+                dv = cc[1] if cc else p[-1][2].get("depth")
                 out = "same" if dv is None or dv[0] == "phi" else ("depth+1" if dv[0] == "bin" and dv[1] == "Add" and strip_wrappers(dv[3])[2] == 1 else "depth-1" if dv[0] == "bin" and dv[1] == "Sub" and strip_wrappers(dv[3])[2] == 1 else "?")
             else:
                 out = "stop"
